@@ -500,6 +500,17 @@ def random_lines(rng, feat):
     return ["".join(rng.choice(alpha) for _ in range(rng.randrange(0, 9))) for _ in range(rng.randrange(1, 5))]
 
 
+SRM_TOKS = ["'a;b'", "\"'a;b'\"", "(a+b)", "((a+b))", "( a+b )", "1e5", "11e5", "1.e5", "'1.e5'", ".5d0_k", ";", ";",
+            " ; ", "F2PY_EXPR_TUPLE_1", "_F2PY_STRING_CONSTANT_1_", "F2PY_REAL_CONSTANT_1_", "\\", "[", "]", "(", ")",
+            "x", "Yy", " ", "=", "'", "\"", "10", "nm:", "''", "(;)", "a(1;2)", "1e5_", "-1E+3", "&", "!"]
+
+
+def srm_soup(rng, feat):
+    """lines that stress string_replace_map / apply_map as used by the `;` splitting"""
+    feat.add("srm-soup")
+    return ["".join(rng.choice(SRM_TOKS) for _ in range(rng.randrange(1, 9))) for _ in range(rng.randrange(1, 4))]
+
+
 def gen_fs(rng, feat, mode):
     """a small include universe; `decoy` holds a DIRECTORY named inc2.h"""
     f = set()
@@ -532,6 +543,10 @@ def gen_case(rng):
         lines = mutate(rng, lines, feat)
     elif r < 0.27:
         lines = random_lines(rng, feat)
+    elif r < 0.33:
+        lines = srm_soup(rng, feat)
+        if mode == "fixed":
+            lines = ["      " + l for l in lines]
     src = "\n".join(lines) + ("\n" if rng.random() < 0.9 else "")
     fs, dirs = gen_fs(rng, feat, mode)
     case = {"src": src, "mode": mode, "ic": rng.random() < 0.5, "omp": rng.random() < 0.5,
